@@ -217,6 +217,8 @@ def run(ctx, crate):
     if "path" in fields and args_v is not None:
         pv = ret[3][fields.index("path")]
         alts = list(pv[2]) if pv[0] == "phi" else [pv]
+        for _flat in range(4):  # (a choice made in two steps - `flag.or(file)`, then the default - is a choice among three)
+            alts = [m for a in alts for m in (a[2] if a[0] == "phi" else [a])]
         argp = ("proj", args_v, ("f", 0, "path"))
         kinds = {}
         for a in alts:
